@@ -531,12 +531,17 @@ theorem tail_blocks (bs : List V3Block) (wf : ∀ b ∈ bs, b.WF) (hal : blocksA
     apply greedyBlocks_cont (b :: bs') _ g1 (by rw [hrest, h]) wf hal
     rw [hrest]; simp only [List.length_cons]; omega
 
-theorem parse_encodeV3 {ε : Type} (plist : Bytes → Option PView) (dec : Bytes → Except PyErr ε) (spec : Bytes → ε)
+/-- the reader's steps on an encoded file, one by one: magic, header, thread-map chunk, and the whole run. -/
+theorem parse_encodeV3_steps {ε : Type} (plist : Bytes → Option PView) (dec : Bytes → Except PyErr ε) (spec : Bytes → ε)
     (hdec : RejectsShort dec) (prior : PState) (f : V3File) (wf : f.WF) (hcpu : plist f.cpu ≠ none)
     (hd : ∀ x ∈ f.recs, dec x = .ok (spec x)) :
-    ∃ rd, parse plist dec prior (encodeV3 f) =
-      tailOfBlocks plist (f.recs.map spec) (setThreadMap prior.tables (f.threads.map toEntry))
-        { prior.md with header := some (f.hdr, f.cpu) } (f.blocks.map fun b => (b.tag, b.payload)) rd := by
+    ∃ r2 r3 rd,
+      ((Reader.ofBytes (encodeV3 f)).read Gen.Consts.RAW_VERSION_SIZE).1 = Gen.Consts.RAW_VERSION3_BYTES ∧
+      headerV3 plist ((Reader.ofBytes (encodeV3 f)).read Gen.Consts.RAW_VERSION_SIZE).2 = (.ok (f.hdr, f.cpu), r2) ∧
+      threadmapV3 r2 = (.ok (f.threads.map toEntry), r3) ∧
+      parseV3 plist dec prior ((Reader.ofBytes (encodeV3 f)).read Gen.Consts.RAW_VERSION_SIZE).2 =
+        tailOfBlocks plist (f.recs.map spec) (setThreadMap prior.tables (f.threads.map toEntry))
+          { prior.md with header := some (f.hdr, f.cpu) } (f.blocks.map fun b => (b.tag, b.payload)) rd := by
   obtain ⟨w1, w2, w3, w4, w5, w6, w7, w8, w9, w10, w11, w12, w13⟩ := wf
   -- magic
   have h0 : (Reader.ofBytes (encodeV3 f)).rest = v3Magic ++ (encodeFields v3FieldSizes f.hdr ++ (toLE 8 f.cpu.length ++
@@ -574,14 +579,11 @@ theorem parse_encodeV3 {ε : Type} (plist : Bytes → Option PView) (dec : Bytes
   obtain ⟨s4, _⟩ := chunkLoop_spec dec hdec (r3.rest.length / 16 + 2) r3 s3.good
   rw [j3] at s4
   obtain ⟨rd, egr⟩ := tail_blocks f.blocks w11 w12 s4.good j4
-  refine ⟨rd, ?_⟩
   have hmagic : ((Reader.ofBytes (encodeV3 f)).read Gen.Consts.RAW_VERSION_SIZE).1 = Gen.Consts.RAW_VERSION3_BYTES := by
     rw [tags_eq.2.2.2.2]; exact hm
-  have hnot2 : ¬ Gen.Consts.RAW_VERSION3_BYTES = Gen.Consts.RAW_VERSION2_BYTES := by decide
-  unfold parse
-  simp only [hmagic, hnot2, if_false, if_true]
-  unfold parseV3
   have e2' : headerV3 plist ((Reader.ofBytes (encodeV3 f)).read Gen.Consts.RAW_VERSION_SIZE).2 = (.ok (f.hdr, f.cpu), r2) := e2
+  refine ⟨r2, r3, rd, hmagic, e2', e3, ?_⟩
+  unfold parseV3
   rw [e2']
   dsimp only
   rw [e3]
@@ -593,5 +595,18 @@ theorem parse_encodeV3 {ε : Type} (plist : Bytes → Option PView) (dec : Bytes
   dsimp only
   rw [egr]
   simp only [V3File.recs, List.map_flatMap]
+
+theorem parse_encodeV3 {ε : Type} (plist : Bytes → Option PView) (dec : Bytes → Except PyErr ε) (spec : Bytes → ε)
+    (hdec : RejectsShort dec) (prior : PState) (f : V3File) (wf : f.WF) (hcpu : plist f.cpu ≠ none)
+    (hd : ∀ x ∈ f.recs, dec x = .ok (spec x)) :
+    ∃ rd, parse plist dec prior (encodeV3 f) =
+      tailOfBlocks plist (f.recs.map spec) (setThreadMap prior.tables (f.threads.map toEntry))
+        { prior.md with header := some (f.hdr, f.cpu) } (f.blocks.map fun b => (b.tag, b.payload)) rd := by
+  obtain ⟨r2, r3, rd, hmagic, _, _, h⟩ := parse_encodeV3_steps plist dec spec hdec prior f wf hcpu hd
+  refine ⟨rd, ?_⟩
+  have hnot2 : ¬ Gen.Consts.RAW_VERSION3_BYTES = Gen.Consts.RAW_VERSION2_BYTES := by decide
+  unfold parse
+  simp only [hmagic, hnot2, if_false, if_true]
+  exact h
 
 end KdVerif
